@@ -271,13 +271,6 @@ def Lit.inWindow (l : Lit) : Prop :=
   let adj := e - f + (Dec.numDigits (digitsVal 10 l.mantDigits.1) : Int) - 1
   (-100000 : Int) ≤ e ∧ e ≤ 100000 ∧ f ≤ 100000 ∧ (-100000 : Int) ≤ adj ∧ adj ≤ 100000
 
-/-- the multiplied mantissa needs at most `p` significant digits (beyond that the implementation
-rounds the literal, a finding) -/
-def Lit.siFits (p : Nat) : Lit → Prop
-  | .si ip fp m => Fits p ⟨(digitsVal 10 (ip ++ optSpell fp) * m.value : Nat), 0⟩
-  | .siDot fp m => Fits p ⟨(digitsVal 10 fp * m.value : Nat), 0⟩
-  | _ => True
-
 /-- spellings of the grammar the implementation's scanner rejects (a finding): an `si_lit`
 whose integer part has a superfluous leading zero (`01K`, `0_1K`, `00.5M`) -/
 def Lit.siLeadingZero : Lit → Bool
